@@ -2,6 +2,6 @@
 # usage: tools_seedrun.sh <patch.diff> <prop> [tier]  -- apply a seeded change to /repo, run the check, always revert
 P="$(realpath "$1")"; ID="$2"; TIER="${3:-quick}"
 git -C /repo apply "$P" || { echo "PATCH DOES NOT APPLY"; exit 3; }
-cd /verif && ./vt check "$ID" --tier "$TIER" 2>&1 | grep -E "VIOLATION|violation root|^\[C|HARNESS|KNOWN" | cut -c1-400
+cd /verif && VT_OUT=/tmp/vt-seedrun-out ./vt check "$ID" --tier "$TIER" 2>&1 | grep -E "VIOLATION|violation root|^\[C|HARNESS|KNOWN" | cut -c1-400
 git -C /repo checkout -- . 
 git -C /repo status --short | head -3
